@@ -5,17 +5,17 @@
 #include <stdint.h>
 #include <stddef.h>
 extern "C" {
-uint8_t nondet_u8(void);
-uint16_t nondet_u16(void);
-uint32_t nondet_u32(void);
-uint64_t nondet_u64(void);
-uint8_t nondet_bool(void);
+uint8_t nondet_u8(void) noexcept;
+uint16_t nondet_u16(void) noexcept;
+uint32_t nondet_u32(void) noexcept;
+uint64_t nondet_u64(void) noexcept;
+uint8_t nondet_bool(void) noexcept;
 // value in [lo, hi] (CBMC: assumed; native random tape: reduced into range; native replay: checked)
-uint64_t nondet_range(uint64_t lo, uint64_t hi);
-void __CPROVER_assume(int);
-void __CPROVER_assert(int, const char*);
+uint64_t nondet_range(uint64_t lo, uint64_t hi) noexcept;
+void __CPROVER_assume(int) noexcept;
+void __CPROVER_assert(int, const char*) noexcept;
 // fold a value into the observation hash compared by the per-run translator differential
-void verif_observe(uint64_t);
+void verif_observe(uint64_t) noexcept;
 }
 static inline int64_t nondet_i64() { return (int64_t)nondet_u64(); }
 static inline int32_t nondet_i32() { return (int32_t)nondet_u32(); }
